@@ -529,6 +529,7 @@ fn run_case(seed: u64, idx: u64, _tier: Tier, out: &mut CaseOut) {
     }
     let mut rng = Rng::for_case(seed, "C03", idx);
     let mut p = Profile::full();
+    p.lead_br = true;
     if rng.chance(1, 3) {
         p = p.no_tables();
     }
